@@ -3,6 +3,7 @@
 package main
 
 import (
+	"os"
 	"fmt"
 	"strings"
 	"time"
@@ -16,12 +17,16 @@ import (
 type cfg struct {
 	W, Q, S, J, Y int
 	releaseEarly  bool // Release issued without waiting for the jobs
+	JobMs         int  // >0: every job takes this long on the virtual clock; an early Release comes 100 ms after the start
 }
 
 func (c cfg) name() string {
 	n := fmt.Sprintf("gpool W=%d Q=%d S=%d J=%d Y=%d", c.W, c.Q, c.S, c.J, c.Y)
 	if c.releaseEarly {
 		n += " early-release"
+	}
+	if c.JobMs > 0 {
+		n += fmt.Sprintf(" job=%dms", c.JobMs)
 	}
 	return n
 }
@@ -58,6 +63,9 @@ func scenario(c cfg) *vm.Scenario {
 						for y := 0; y < c.Y; y++ {
 							vm.Yield()
 						}
+						if c.JobMs > 0 {
+							vm.Sleep(int64(c.JobMs) * int64(time.Millisecond))
+						}
 						count[id]++
 						running--
 						vm.Log("end %d", id)
@@ -73,6 +81,9 @@ func scenario(c cfg) *vm.Scenario {
 				vm.Recv(done)
 			}
 		}
+		if c.releaseEarly && c.JobMs > 0 {
+			vm.Sleep(int64(100 * time.Millisecond))
+		}
 		vm.Log("release-begin running=%d", running)
 		pool.Release()
 		if running != 0 {
@@ -81,7 +92,7 @@ func scenario(c cfg) *vm.Scenario {
 		released = true
 		vm.Log("released")
 		// let everything that can still run, run
-		vm.Sleep(int64(time.Second))
+		vm.Sleep(int64(time.Second) + int64(4*c.JobMs)*int64(time.Millisecond))
 	}
 	sc.Check = func(r *vm.Result) string {
 		var msgs []string
@@ -218,6 +229,25 @@ func main() {
 					add(cfg{W: w, Q: q, S: 2, J: 1, Y: y, releaseEarly: true}, -1, 2*time.Minute)
 					add(cfg{W: w, Q: q, S: 2, J: 2, Y: y, releaseEarly: true}, 3, 2*time.Minute)
 				}
+			}
+		}
+	}
+	// jobs that take 700 ms of virtual time; Release is called 100 ms after the start, while every worker is busy and
+	// further jobs wait: it returns only when the running jobs are through, and nothing starts afterwards
+	for _, c := range []cfg{{W: 1, Q: 2, S: 1, J: 3, JobMs: 700, releaseEarly: true}, {W: 2, Q: 1, S: 2, J: 2, JobMs: 700, releaseEarly: true}, {W: 1, Q: 0, S: 2, J: 1, JobMs: 700, releaseEarly: true}} {
+		for pol := 0; pol < 3; pol++ {
+			sc := scenario(c)
+			sc.Name += fmt.Sprintf(" strict bound=2 policy=%d", pol)
+			cases = append(cases, e1.Case{Sc: sc, Opt: vm.Options{Bound: 2, StrictDev: true, Policy: pol, Prune: true}, Budget: 60 * time.Second, MinOutcomes: 1})
+		}
+	}
+	if show := os.Getenv("C19_SHOW"); show != "" {
+		for _, c := range cases {
+			if strings.Contains(c.Sc.Name, show) {
+				vm.StrictDeviations = true
+				r := vm.Replay(c.Sc, nil)
+				fmt.Println(c.Sc.Name, r.Status, "\n"+r.ObsString(), "\nblocked:", r.Blocked, "\ncheck:", c.Sc.Check(r))
+				os.Exit(0)
 			}
 		}
 	}
